@@ -232,7 +232,47 @@ def solve(constraints, timeout_ms=20000, want_model=False, tactic=None):
     dt = time.time() - t0
     v = str(r)
     m = s.model() if (v == "sat" and want_model) else None
+    if v == "unsat" and CROSS["every"]:
+        _crosscheck(s)
     return v, dt, m, s
+
+
+# ---------------------------------------------------------------------------------------------- second solver (thorough tier)
+CROSS = dict(every=0, n=0, sampled=0, unsat=0, unknown=0, sat=0, errors=0, disagreements=[])
+
+
+def _crosscheck(s):
+    """every k-th query that z3 answered `unsat` is re-asked to the cvc5 binary through SMT-LIB (sampled: cvc5's non-linear
+    reasoning is slower).  `sat` from cvc5 is a disagreement and is reported; `unknown`/timeouts say nothing."""
+    import os
+    import subprocess
+    import tempfile
+    CROSS["n"] += 1
+    if CROSS["n"] % CROSS["every"]:
+        return
+    CROSS["sampled"] += 1
+    fd, path = tempfile.mkstemp(suffix=".smt2", prefix="verif_cc_")
+    try:
+        with os.fdopen(fd, "w") as f:
+            f.write("(set-logic ALL)\n" + s.to_smt2())
+        p = subprocess.run(["cvc5", "--tlimit=8000", path], stdout=subprocess.PIPE, stderr=subprocess.STDOUT, text=True, timeout=30)
+        out = p.stdout.strip().splitlines()
+        ans = out[0].strip() if out else "error"
+        if "(error" in p.stdout:
+            ans = "error"
+    except Exception:  # noqa
+        ans = "error"
+    finally:
+        os.unlink(path)
+    if ans == "unsat":
+        CROSS["unsat"] += 1
+    elif ans == "sat":
+        CROSS["sat"] += 1
+        CROSS["disagreements"].append(s.to_smt2()[:2000])
+    elif ans == "error":
+        CROSS["errors"] += 1
+    else:
+        CROSS["unknown"] += 1
 
 
 def abstract_nonlinear(constraints):
